@@ -1,5 +1,6 @@
+use std::ffi::OsStr;
 use std::fs;
-use std::path::{Path, PathBuf};
+use std::path::{Component, Path, PathBuf};
 
 use serde::Serialize;
 use uuid::Uuid;
@@ -76,8 +77,14 @@ pub(crate) fn write_bundle_v1(
 }
 
 /// Whether `artifact_id` names a blob in the workspace artifact store.
+/// An id is the name of one blob, never a path: `""`, `.`, `..`, `../x`, `a/b` and absolute paths name
+/// nothing in the store.
 pub(crate) fn artifact_exists(workspace_root: &Path, artifact_id: &str) -> bool {
-    !artifact_id.is_empty() && artifacts_blobs_dir(workspace_root).join(artifact_id).is_file()
+    let mut components = Path::new(artifact_id).components();
+    matches!((components.next(), components.next()), (Some(Component::Normal(name)), None) if name == OsStr::new(artifact_id))
+        && artifacts_blobs_dir(workspace_root)
+            .join(artifact_id)
+            .is_file()
 }
 
 fn artifacts_blobs_dir(workspace_root: &Path) -> PathBuf {
